@@ -259,6 +259,11 @@ func chunk(i, c int) []byte {
 // bs renders bytes readably in evidence ("[6 7 8]").
 func bs(b []byte) string { return fmt.Sprint(b) }
 
+var (
+	auditStat = [2]string{"audit Stat(k0)", "audit Stat(k1)"}
+	auditOpen = [2]string{"audit Open(k0,off=0)", "audit Open(k1,off=0)"}
+)
+
 const readBuf = 4
 
 func readAll(rc io.Reader) ([]byte, error) {
@@ -293,8 +298,8 @@ func (rn *runner) run(h []op, label string, mode vfs.Mode) *runResult {
 	nfail, nlog := 0, 0
 	// failedSince returns the labels of vfs calls that failed since the last call.
 	failedSince := func() []string {
-		if !isFile {
-			return nil
+		if !isFile || label == "" {
+			return nil // nothing is armed: no call can fail
 		}
 		f := rn.vol.Failures()
 		d := f[nfail:]
@@ -302,8 +307,8 @@ func (rn *runner) run(h []op, label string, mode vfs.Mode) *runResult {
 		return d
 	}
 	noteCalls := func(i int) {
-		if !isFile {
-			return
+		if !isFile || label != "" || rn.noSweep {
+			return // only the fault-free run that feeds the sweep needs the call->op map
 		}
 		l := rn.vol.Log()
 		for ; nlog < len(l); nlog++ {
@@ -313,6 +318,9 @@ func (rn *runner) run(h []op, label string, mode vfs.Mode) *runResult {
 	violate := func(i int, what string, class, cause string, extra map[string]interface{}) {
 		if res.viol != nil {
 			return
+		}
+		if what == "" {
+			what = h[i].String()
 		}
 		d := map[string]interface{}{"store": rn.kind, "key_config": rn.cfg, "history": histString(h), "at_op": what, "op_index": i}
 		if label != "" {
@@ -440,7 +448,7 @@ func (rn *runner) run(h []op, label string, mode vfs.Mode) *runResult {
 
 	for i, o := range h {
 		failedSince()
-		what := o.String()
+		what := "" // violate() fills in o.String()
 		switch o.kind {
 		case opCreate:
 			w, err := store.Create(ctx, rn.keys[o.k].task, rn.keys[o.k].part)
@@ -554,7 +562,9 @@ func (rn *runner) run(h []op, label string, mode vfs.Mode) *runResult {
 	// file system is restarted and a new store object opened on the same prefix.
 	if isFile {
 		res.fired = len(rn.vol.Fired()) > 0
-		res.log = rn.vol.Log()
+		if label == "" && !rn.noSweep {
+			res.log = rn.vol.Log()
+		}
 		rn.vol.ClearFaults()
 		if rn.vol.Crashed() {
 			rn.vol.Restart()
@@ -564,9 +574,9 @@ func (rn *runner) run(h []op, label string, mode vfs.Mode) *runResult {
 	}
 	for k := 0; k < 2; k++ {
 		size, recs, err := doStat(store, k)
-		judgeStat(len(h), fmt.Sprintf("audit Stat(k%d)", k), m.ent[k], size, recs, err, nil)
+		judgeStat(len(h), auditStat[k], m.ent[k], size, recs, err, nil)
 		ob := doOpen(store, k, 0)
-		judgeOpen(len(h), fmt.Sprintf("audit Open(k%d,off=0)", k), m.ent[k], 0, ob, nil)
+		judgeOpen(len(h), auditOpen[k], m.ent[k], 0, ob, nil)
 	}
 	if isFile {
 		if f := failedSince(); len(f) > 0 {
